@@ -54,7 +54,7 @@ func c15Program(r *rand.Rand) gast.Program {
 	var gen func(depth int) []gast.Stmt
 	gen = func(depth int) []gast.Stmt {
 		var out []gast.Stmt
-		switch r.Intn(12) {
+		switch r.Intn(13) {
 		case 0, 1:
 			out = append(out, gast.Assign{Name: pickV(), X: id(pickV())})
 		case 2:
@@ -82,6 +82,16 @@ func c15Program(r *rand.Rand) gast.Program {
 				gast.If{C: gast.Infix{Op: "==", L: id("ix"), R: gast.IntLit{V: int64(r.Intn(2))}}, Then: []gast.Stmt{gast.Assign{Name: keep, X: id([]string{"ix", "e"}[r.Intn(2)])}, gast.Assign{Name: "arr", X: gast.ArrayLit{Els: []gast.Expr{id("ix"), id("e")}}}}},
 			}})
 			out = append(out, mut(keep))
+		case 11:
+			// the same name bound in two open scopes (a parameter of the caller, a loop
+			// variable around the call) while the callee mutates its own parameter
+			if r.Intn(2) == 0 {
+				out = append(out, gast.Assign{Name: pickV(), X: gast.Call{Fn: "relay", Args: []gast.Expr{id(pickV())}}})
+			} else {
+				out = append(out, gast.Foreach{Var: "p", It: gast.ArrayLit{Els: []gast.Expr{id(pickV()), c15Lit(r)}}, Body: []gast.Stmt{
+					gast.Assign{Name: "got", X: gast.Call{Fn: "bump", Args: []gast.Expr{id("p")}}}, gast.ExprStmt{X: gast.Call{Fn: "quiet", Args: []gast.Expr{id("p")}}},
+					gast.Assign{Name: "arr", X: gast.ArrayLit{Els: []gast.Expr{id("p"), id("got")}}}}})
+			}
 		case 9:
 			// the field itself as target of a mutator (creates a variable of that name)
 			out = append(out, mut([]string{"FI", "FF"}[r.Intn(2)]))
@@ -109,7 +119,12 @@ func c15Program(r *rand.Rand) gast.Program {
 	}
 	bump := gast.FuncDef{Name: "bump", Params: []string{"p"}, Body: []gast.Stmt{mut("p"), gast.Return{X: id("p")}}}
 	quiet := gast.FuncDef{Name: "quiet", Params: []string{"p"}, Body: []gast.Stmt{mut("p"), mut("p")}}
-	return gast.Program{Stmts: append([]gast.Stmt{bump, quiet, viaLocal}, body...)}
+	// relay has a parameter of the same name as the functions it calls
+	relay := gast.FuncDef{Name: "relay", Params: []string{"p"}, Body: []gast.Stmt{
+		gast.Local{Name: "m"}, gast.Assign{Name: "m", X: gast.Call{Fn: "bump", Args: []gast.Expr{id("p")}}},
+		gast.ExprStmt{X: gast.Call{Fn: "quiet", Args: []gast.Expr{id("p")}}},
+		gast.Return{X: gast.ArrayLit{Els: []gast.Expr{id("p"), id("m")}}}}}
+	return gast.Program{Stmts: append([]gast.Stmt{bump, quiet, viaLocal, relay}, body...)}
 }
 
 func c15(c *ev.Ctx) {
